@@ -94,7 +94,7 @@ func (r *c03Run) dispense() bool {
 
 func (r *c03Run) extKill(after time.Duration) {
 	time.Sleep(after)
-	syscall.Kill(r.l.pid(), syscall.SIGKILL)
+	killOurs(r.l.pid(), syscall.SIGKILL)
 }
 
 // c03AtSend: broker ids whose host-side control-stream message, once the host's stream goroutine has
@@ -322,7 +322,7 @@ func TestC03(t *testing.T) {
 			if bring() && r.hgrpc != nil {
 				id := uint32(600000 + c.ID)
 				c03AtSend.Store(id, func() {
-					syscall.Kill(r.l.pid(), syscall.SIGKILL)
+					killOurs(r.l.pid(), syscall.SIGKILL)
 					t0 := time.Now()
 					for !r.l.Client.Exited() && time.Since(t0) < 10*time.Second {
 						time.Sleep(5 * time.Millisecond)
